@@ -305,6 +305,9 @@ def project_value(v):
         return dict(z, kind='int', txt=cps(str(v)))
     if isinstance(v, str):
         return dict(z, kind='str', txt=cps(v))
+    if isinstance(v, float):
+        # a plain JSON number inside an array / object / any cell: it is a float before and a float after (Ejson: a "plain" cell)
+        return dict(z, kind='float', txt=cps(repr(v)))
     if isinstance(v, decimal.Decimal):
         return dict(z, kind='dec', txt=cps(str(v)))
     if isinstance(v, datetime.datetime):
@@ -387,6 +390,11 @@ def catalogue_rows():
     # user dicts that happen to look like the encoding of a typed value (inside an object cell, an array cell, an any cell)
     rows.append(dict(i=105, dt=None, dec=None, d=None, t=None, s='tag objects', dur=None, arr=[{'type{decimal}': '1.5'}, 1],
                      obj=dict(when={'type{date}': '2020-01-02'}, at={'type{time}': '01:02:03'}), anyv={'type{date}': '1999-12-31'}))
+    # plain floats inside array / object / any cells (a float is not a Decimal when it comes back)
+    rows.append(dict(i=106, dt=None, dec=None, d=None, t=None, s='floats', dur=None, arr=[0.1, 32.0853, -2.5e-7, [1e300]], obj=dict(lat=32.0853, lon=dict(v=0.3)), anyv=0.1))
+    # zone names say nothing about the offset: two zones called CST (Chicago, Shanghai), two called IST
+    for j, (name, hours) in enumerate((('CST', -6), ('CST', 8), ('IST', 5.5), ('IST', 2), ('CST', -6))):
+        rows.append(dict(i=110 + j, dt=datetime.datetime(2021, 3, 4, 9, 0, 0, tzinfo=tz(td(hours=hours), name)), dec=None, d=None, t=None, s=name, dur=None, arr=None, obj=None))
     for x in rows:
         x.setdefault('anyv', None)
     return rows
@@ -406,13 +414,13 @@ def random_rows(r, n):
         off = r.choice([r.randrange(-86340, 86340, 60), r.randrange(-43200, 50400, 900)])
         us = r.choice([0, 0, 0, r.randrange(1, 999999)])
         dt = datetime.datetime(r.randint(1, 9999), r.randint(1, 12), r.randint(1, 28), r.randint(0, 23), r.randint(0, 59), r.randint(0, 59), us,
-                               tzinfo=tz(td(seconds=off)) if aware else None)
+                               tzinfo=(tz(td(seconds=off), r.choice(['CST', 'IST'])) if r.random() < 0.3 else tz(td(seconds=off))) if aware else None)
         dec = D(r.choice(['%d.%0*d' % (r.randint(-10 ** 12, 10 ** 12), r.randint(1, 20), r.randint(0, 10 ** 9)), '%dE%d' % (r.randint(-99, 99), r.randint(-30, 30)), '0', '-0.0']))
         s = ''.join(r.choice(['a', 'Z', ' ', '"', '\\', '\n', '\t', u'é', u'中', u'\U0001F600', ',', '{', '}']) for _ in range(r.randint(0, 8)))
         rows.append(dict(i=i, dt=dt, dec=dec, d=datetime.date(r.randint(1, 9999), r.randint(1, 12), r.randint(1, 28)),
                          t=datetime.time(r.randint(0, 23), r.randint(0, 59), r.randint(0, 59), r.choice([0, 0, r.randrange(1, 999999)])),
                          s=s, dur=td(days=r.randint(0, 400), seconds=r.randint(0, 86399)),
-                         arr=[r.randint(-5, 5), s, [dec]], obj=dict(k=dec, n=dict(d=datetime.date(2000, 1, r.randint(1, 28)))),
+                         arr=[r.randint(-5, 5), s, [dec], r.choice([0.1, 0.5, 2.0 / 3, -1e-9])], obj=dict(k=dec, n=dict(d=datetime.date(2000, 1, r.randint(1, 28))), f=r.random()),
                          anyv=r.choice([None, {r.randint(-9, 9) for _ in range(r.randint(0, 3))}, r.randint(0, 5)])))
     return rows
 
